@@ -601,12 +601,35 @@ pub static C35: PropDef = PropDef {
     id: "C35",
     level: "exploration",
     engine: "sweep",
-    rule: "programs = every subset of 3 frames (qubits 0, 1, 0+1) x 2 waveforms, 2 externs, declaration, DEFGATE, DEFCIRCUIT x 6 calibration sets (none, fixed, variable, nested, measure, one whose body acts on another qubit than its gate) x every body of 1-2 (thorough 4) instructions from a 15-item menu (calibrated and uncalibrated gates, pulses, fences, delay, CALL, frame update, capture, RESET with and without a qubit, measure): simplify() vs expand_calibrations() body, no calibrations, frames = frames used by that body (reference frame rules; for a bare RESET the real handler asked about the expanded program), waveforms invoked, externs called, other definitions unchanged, block schedules equal. non-trivial = program that simplifies",
+    rule: "programs = every subset of 3 frames (qubits 0, 1, 0+1) x every subset of 2 waveform and 2 extern definitions (names left undefined stay referenced, like built-in template waveforms) x declaration, DEFGATE, DEFCIRCUIT x 6 calibration sets (none, fixed, variable, nested, measure, one whose body acts on another qubit than its gate) x every body of 1-2 (thorough 4, 3 when a definition is left out) instructions from a 15-item menu (calibrated and uncalibrated gates, pulses, fences, delay, CALL, frame update, capture, RESET with and without a qubit, measure): simplify() vs expand_calibrations() body, no calibrations, frames = frames used by that body (reference frame rules; for a bare RESET the real handler asked about the expanded program), waveforms invoked, externs called, other definitions unchanged, block schedules equal. non-trivial = program that simplifies",
     assumptions: &["frames used by an instruction = reference frame rules (ref_frames), checked against the code by C26"],
     run: |ctx| {
         let l = ctx.tier.pick(2, 4);
         for fmask in 0..8u32 {
+          // which of the two waveforms / two externs are *defined* (bits: w, v, f, g); undefined names stay
+          // referenced by the body, like built-in template waveforms
+          for dmask in 0..16u32 {
+            let head: String = C35_HEAD
+                .split_inclusive('\n')
+                .collect::<Vec<_>>()
+                .chunks(1)
+                .map(|c| c[0])
+                .scan(false, |skip_next, line| {
+                    // a DEFWAVEFORM takes two lines (header + samples)
+                    if *skip_next {
+                        *skip_next = false;
+                        return Some("");
+                    }
+                    let drop = (line.starts_with("DEFWAVEFORM w:") && dmask & 1 == 0) || (line.starts_with("DEFWAVEFORM v:") && dmask & 2 == 0) || (line.starts_with("PRAGMA EXTERN f ") && dmask & 4 == 0) || (line.starts_with("PRAGMA EXTERN g ") && dmask & 8 == 0);
+                    if drop && line.starts_with("DEFWAVEFORM") {
+                        *skip_next = true;
+                    }
+                    Some(if drop { "" } else { line })
+                })
+                .collect();
             for cal in C35_CALS {
+                // bodies of full length over the full definition set, one shorter otherwise (thorough)
+                let l = if dmask == 15 || ctx.tier == Tier::Quick { l } else { l - 1 };
                 for len in 1..=l {
                     sequences(C35_BODY.len(), len, |b| {
                         let mk = || {
@@ -616,7 +639,7 @@ pub static C35: PropDef = PropDef {
                                     src.push_str(f);
                                 }
                             }
-                            src.push_str(C35_HEAD);
+                            src.push_str(&head);
                             src.push_str(cal);
                             for k in b {
                                 src.push_str(C35_BODY[*k]);
@@ -644,6 +667,7 @@ pub static C35: PropDef = PropDef {
                     });
                 }
             }
+          }
         }
     },
     replay: |c| c35_check(c["program"].as_str().unwrap_or("")).1.into_iter().map(|(cl, d)| viol(&cl, format!("C35:{cl}"), c.clone(), d)).collect(),
